@@ -147,21 +147,24 @@ Qed.
 
 Theorem macro_crun : forall P c ch c' b, crun P c -> macro P c ch = Some (c', b) -> crun P c'.
 Proof.
-  intros P c ch c' b H M. destruct ch as [t m a | t ok | ]; simpl in M.
+  intros P c ch c' b H M. destruct ch as [t m a | t ok | ]; unfold macro in M.
   - destruct (st (get_thr (c_s c) t)) eqn:ST; try discriminate.
     destruct (is_user t && existsb (meth_eqb m) (calls_of t)) eqn:E; [|discriminate].
     apply andb_true_iff in E. destruct E as [_ E]. apply existsb_exists in E.
     destruct E as [m' [Hin Em]]. apply meth_eqb_sound in Em. subst m'.
-    assert (c' = fst (settle P settle_fuel (apply c (LCall t m) (start_call P (c_s c) t m) a) t))
-      by (inversion M; reflexivity).
-    subst c'. apply settle_crun. apply crun_step; [exact H|].
+    assert (X : settle P settle_fuel (apply c (LCall t m) (start_call P (c_s c) t m) a) t = (c', b))
+      by congruence.
+    replace c' with (fst (settle P settle_fuel (apply c (LCall t m) (start_call P (c_s c) t m) a) t))
+      by (rewrite X; reflexivity).
+    apply settle_crun. apply crun_step; [exact H|].
     apply (thr_next_in P (c_s c) t). unfold thr_next. rewrite ST.
     apply in_map_iff. exists m. auto.
   - destruct (pick P (c_s c) t ok) as [[l s']|] eqn:E; [|discriminate].
-    assert (c' = fst (settle P settle_fuel (apply c l s' 0) t)) by (inversion M; reflexivity).
-    subst c'. apply settle_crun. apply crun_step; [exact H | eapply pick_in; exact E].
+    assert (X : settle P settle_fuel (apply c l s' 0) t = (c', b)) by congruence.
+    replace c' with (fst (settle P settle_fuel (apply c l s' 0) t)) by (rewrite X; reflexivity).
+    apply settle_crun. apply crun_step; [exact H | eapply pick_in; exact E].
   - destruct (env_next (c_s c)) as [|[l s'] r] eqn:E; [discriminate|].
-    inversion M; subst. apply crun_step; [exact H|].
+    assert (X : apply c l s' 0 = c') by congruence. rewrite <- X. apply crun_step; [exact H|].
     unfold next. apply in_or_app. right. apply in_or_app. right. apply in_or_app. right.
     rewrite E. simpl. auto.
 Qed.
